@@ -152,8 +152,8 @@ pub fn run(tier: Tier) -> Report {
             for chunk in all.chunks(6) {
                 for (pi, &pos) in positions.iter().enumerate() {
                     // the full position set for a level subset, four positions for every level
-                    if tier.thorough() && pi >= 4 && chunk[0].abs() % 64 > 6 {
-                        continue;
+                    if tier.thorough() && pi >= 4 && chunk[0].abs() % 8 > 5 && *maxl > 127 {
+                        continue; // 11-bit levels: three quarters of the level chunks at every position
                     }
                     for hdr in hdrs {
                         let mut hdr = hdr.clone();
